@@ -74,7 +74,9 @@ var psiSections = []psiSection{
 		entries: []string{"newDescriptorAVCVideo", "newDescriptorDataStreamAlignment", "newDescriptorMaximumBitrate",
 			"newDescriptorPrivateDataIndicator", "newDescriptorPrivateDataSpecifier", "newDescriptorStreamIdentifier",
 			"newDescriptorUnknown", "newDescriptorRegistration", "newDescriptorNetworkName", "newDescriptorComponent",
-			"newDescriptorContent", "newDescriptorService", "newDescriptorShortEvent"}},
+			"newDescriptorContent", "newDescriptorService", "newDescriptorShortEvent", "newDescriptorParentalRating",
+			"newDescriptorSubtitling", "newDescriptorTeletext", "newDescriptorLocalTimeOffset", "newDescriptorAC3", "newDescriptorEnhancedAC3",
+			"newDescriptorExtendedEventItem", "newDescriptorExtendedEvent", "newDescriptorExtensionSupplementaryAudio", "newDescriptorVBIData"}},
 }
 
 // ---------- hooks called from itermonad.go ----------
@@ -122,6 +124,43 @@ func (m *mtr) hoistAppend(e *ast.CallExpr, pre *string, guarded bool) ast.Expr {
 	}
 	name := "(" + xs + " ++ [" + ys + "])"
 	m.env[name] = xt
+	return &ast.Ident{Name: name, NamePos: e.Pos()}
+}
+
+// hoistSlice: x[a:b] with constant bounds inside the constant length x was read with (no panic possible).
+func (m *mtr) hoistSlice(e *ast.SliceExpr) ast.Expr {
+	xid, ok := e.X.(*ast.Ident)
+	if !ok || e.Slice3 {
+		m.fail(e, "slice expression that is not <slice variable>[<constant>:<constant>]")
+	}
+	n, known := m.sliceLen[xid.Name]
+	if !known {
+		m.fail(e, "slice expression on %s, whose length is not statically known", xid.Name)
+	}
+	lo, hi := int64(0), n
+	if e.Low != nil {
+		v, ok := m.p.evalConst(e.Low, map[string]bool{})
+		if !ok {
+			m.fail(e, "slice bound is not a constant")
+		}
+		lo = v.Int64()
+	}
+	if e.High != nil {
+		v, ok := m.p.evalConst(e.High, map[string]bool{})
+		if !ok {
+			m.fail(e, "slice bound is not a constant")
+		}
+		hi = v.Int64()
+	}
+	if lo < 0 || lo > hi || hi > n {
+		m.fail(e, "slice %s[%d:%d] is not statically within the length %d the slice was read with", xid.Name, lo, hi, n)
+	}
+	xs, _ := m.expr(xid)
+	name := fmt.Sprintf("(firstn %d (skipn %d %s))", hi-lo, lo, xs)
+	if lo == 0 {
+		name = fmt.Sprintf("(firstn %d %s)", hi, xs)
+	}
+	m.env[name] = tBytes
 	return &ast.Ident{Name: name, NamePos: e.Pos()}
 }
 
